@@ -170,8 +170,13 @@ def translate_c_to_sympy(source_circuit):
     """
 
     from sympy import symbols
+    from sympy.physics.quantum.gate import CGate, XGate
 
     GATE_SYMPY = get_sympy_gates()
+
+    def controls(gate):
+        """All control qubits of the gate (a single index, or a tuple for a multi-controlled gate)."""
+        return gate.control[0] if len(gate.control) == 1 else tuple(gate.control)
 
     # Identity as an empty circuit.
     target_circuit = 1
@@ -189,12 +194,15 @@ def translate_c_to_sympy(source_circuit):
             target_circuit *= GATE_SYMPY[gate.name](gate.target[0])
         elif gate.name in {"PHASE", "RX", "RY", "RZ"}:
             target_circuit *= GATE_SYMPY[gate.name](gate.target[0], parameter)
+        elif gate.name in {"CNOT", "CX"} and len(gate.control) > 1:
+            # CNotGate only takes one control: a multi-controlled X is expressed with CGate
+            target_circuit *= CGate(tuple(gate.control), XGate(gate.target[0]))
         elif gate.name in {"CNOT", "CH", "CX", "CY", "CZ", "CS", "CT"}:
-            target_circuit *= GATE_SYMPY[gate.name](gate.control[0], gate.target[0])
+            target_circuit *= GATE_SYMPY[gate.name](controls(gate), gate.target[0])
         elif gate.name in {"SWAP"}:
             target_circuit *= GATE_SYMPY[gate.name](gate.target[0], gate.target[1])
         elif gate.name in {"CRX", "CRY", "CRZ", "CPHASE"}:
-            target_circuit *= GATE_SYMPY[gate.name](gate.control[0], gate.target[0], parameter)
+            target_circuit *= GATE_SYMPY[gate.name](controls(gate), gate.target[0], parameter)
         else:
             raise ValueError(f"Gate '{gate.name}' not supported on backend SYMPY")
 
